@@ -245,7 +245,8 @@ def treeVerdict (op obs : String) : String :=
             -- probes
             let probes := (words opR).map parsePathTok
             let pobs := (words obR).map parseObsId
-            let probes := if words opR == ["-"] && pobs.length == 1 then [some ([] : Path)] else probes
+            -- no probes at all: the harness writes "-" as the only result
+            let pobs := if (words opR).isEmpty && words obR == ["-"] then [] else pobs
             let pf : List String :=
               if probes.length != pobs.length then [s!"B: {probes.length} probes, {pobs.length} results"]
               else (probes.zip pobs).filterMap (fun (p, o) =>
